@@ -36,17 +36,19 @@ def cases(draw):
     dom = draw(st.sampled_from(['D1', 'D1', 'D1safe', 'D2', 'D3', 'D4', 'D4h']))
     kinds = {'D1': D1, 'D1safe': D1_SAFE, 'D2': ('bool',), 'D3': ('bool', 'int64', 'float64'), 'D4': ('<U3', 'M8[D]', 'int64', 'float64'),
              'D4h': (draw(st.sampled_from(['<U3', 'M8[D]', 'M8[s]'])),)}[dom]
-    n = draw(st.sampled_from([0, 1, 1, 2, 2, 3, 3, 4, 4, 5, 5, 6]))
-    m = draw(st.sampled_from([0, 1, 1, 2, 2, 3, 3, 4, 4, 5, 5, 6]))
-    blks = draw(gen.blocks(n, m, kinds=kinds, missing=True))
+    # decisive choices first (Hypothesis pins late draws to their first option for a share of the examples)
     if dom in ('D4', 'D4h'):
         allowed = ('min', 'max') if (dom == 'D4h' and kinds[0].startswith('M8')) else ('min', 'max', 'all', 'any')
         fn = draw(st.sampled_from(allowed))
     else:
         fn = draw(st.sampled_from(FUNCS))
     axis = 0 if dom in ('D3', 'D4', 'D4h') else draw(st.integers(0, 1))
-    return {'dom': dom, 'blocks': blks, 'n': n, 'm': m, 'fn': fn, 'axis': axis, 'skipna': draw(st.booleans()), 'ddof': draw(st.integers(0, 2)),
-            'ilabels': draw(st.sampled_from(['auto', 'str'])), 'clabels': draw(st.sampled_from(['auto', 'str']))}
+    skipna, ddof = draw(st.booleans()), draw(st.integers(0, 2))
+    il, cl = draw(st.sampled_from(['auto', 'str'])), draw(st.sampled_from(['auto', 'str']))
+    n = draw(st.sampled_from([3, 1, 2, 0, 2, 1, 3, 4, 4, 5, 5, 6]))
+    m = draw(st.sampled_from([3, 1, 2, 0, 2, 1, 3, 4, 4, 5, 5, 6]))
+    blks = draw(gen.blocks(n, m, kinds=kinds, missing=True))
+    return {'dom': dom, 'blocks': blks, 'n': n, 'm': m, 'fn': fn, 'axis': axis, 'skipna': skipna, 'ddof': ddof, 'ilabels': il, 'clabels': cl}
 
 
 def _tol(dtypes):
